@@ -99,10 +99,10 @@ static void workload_body(uint64_t seed, uint64_t ops, Digest& d) {
   }
   for (uint64_t i = 0; i < ops; i++) {
     uint64_t x = vh::prand(seed, 300, i);
-    switch (x % 5) {
+    switch (x % 6) {
       case 0: case 1: {   // decode a well-formed item, or a damaged one
         gen::Bytes in = g_pool[(x >> 8) % g_pool.size()];
-        if ((x % 5) == 1 && !in.empty()) { uint64_t y = vh::prand(seed, 301, i); size_t p = (size_t)(y % in.size()); if (y & 0x100) in.resize(p); else in[p] = (uint8_t)(y >> 16); }
+        if ((x % 6) == 1 && !in.empty()) { uint64_t y = vh::prand(seed, 301, i); size_t p = (size_t)(y % in.size()); if (y & 0x100) in.resize(p); else in[p] = (uint8_t)(y >> 16); }
         struct cbor_load_result r; memset(&r, 0, sizeof r);
         cbor_item_t* it = cbor_load(in.data(), in.size(), &r);
         d.add64(r.error.code); d.add64(r.read); d.add64(it ? 1 : 0); if (!it) d.add64(r.error.position);
@@ -122,6 +122,16 @@ static void workload_body(uint64_t seed, uint64_t ops, Digest& d) {
         // the stream is cut at a seeded length (0 included), so the loop always ends in the NEDATA / empty-buffer path or an error
         size_t lim = (x >> 40) % 3 == 0 ? s.size() : (size_t)((x >> 16) % (s.size() + 1));
         for (;;) { struct cbor_decoder_result dr = cbor_stream_decode(s.data() + off, lim - off, &kEv, &er); d.add64(dr.status); if (dr.status == CBOR_DECODER_NEDATA) d.add64(dr.required); if (dr.status != CBOR_DECODER_FINISHED) break; off += dr.read; }
+        break;
+      }
+      case 5: {   // a deep item (hundreds of levels) decoded, used and released: recursion-bounding scratch state would be shared
+        size_t depth = 258 + (size_t)((x >> 8) % 48);
+        gen::Bytes in(depth, (uint8_t)((x >> 20) & 1 ? 0x81 : 0xc1)); in.push_back((uint8_t)(x >> 24) & 0x17);
+        struct cbor_load_result r; memset(&r, 0, sizeof r);
+        cbor_item_t* it = cbor_load(in.data(), in.size(), &r);
+        d.add64(r.error.code); d.add64(r.read); d.add64(it ? 1 : 0);
+        if (it) { unsigned char* sb = nullptr; size_t sl = 0; size_t w = cbor_serialize_alloc(it, &sb, &sl); d.add64(w); if (sb) { d.add(sb, w); _cbor_free(sb); } cbor_item_t* cp = cbor_copy(it); d.add64(cp ? 1 : 0); if (cp) cbor_decref(&cp); cbor_decref(&it); }
+        d.allocating_ops++;
         break;
       }
       default: {  // low-level encoders and a container grown step by step
